@@ -25,7 +25,7 @@ ASSUMPTIONS = [
     'column sums rtol 1e-12; profile-range clauses rtol 1e-9 (log-space moving average)',
 ]
 REQUIRED = {'single-fill-with-ratio': 0.05, 'exact-unity': 0.2, 'deactivated-molecule': 0.1, 'class:valid': 0.3, 'class:invalid': 0.1, 'class:boundary': 0.03, 'type:twolayer': 0.1,
-            'type:power': 0.1, 'mode:ktables': 0.07, 'fill>=3': 0.1}
+            'type:power': 0.1, 'mode:ktables': 0.07, 'fill>=3': 0.1, 'tiny-fill-ratio': 0.05}
 # coverage-guided extra (thorough tier): pure-Python taurex modules on this property's path, instrumented by atheris
 FUZZ = {'include': ['taurex.data.profiles.chemistry', 'taurex.util.util'], 'runs': 20000, 'workers': 4}
 
@@ -65,7 +65,8 @@ def _case(draw):
     nl = draw(st.sampled_from([2, 3, 5, 7, 10, 11, 13, 17, 23, 30, 37, 41, 53, 60, 4, 6, 9]))
     nfill = draw(S.ints(1, 4))
     fill = draw(S.perm(FILL))[:nfill]
-    ratios = draw(st.lists(st.floats(1e-3, 2.0), min_size=nfill - 1, max_size=nfill - 1))
+    # ordinary ratios, and now and then one of trace size (a fill gas that is nearly absent): the ratio to the main gas is still exact
+    ratios = [draw(st.floats(1e-3, 2.0)) if draw(S.ints(0, 3)) else 10.0 ** draw(st.floats(-17.0, -3.0)) for _ in range(nfill - 1)]
     ntr = draw(S.ints(0, 5))
     mols = draw(S.perm(TRACE))[:ntr]
     traces = [draw(_gas(m)) for m in mols]
@@ -292,6 +293,8 @@ def check(case):
     nf = len(case['fill'])
     if nf > 1 and cls == 'valid':
         out.applies('fill-ratios')
+        if min(case['ratios']) < 1e-9:
+            out.cls('tiny-fill-ratio')
         for i in range(1, nf):
             if not close(mix[i], case['ratios'][i - 1] * mix[0], rtol=1e-12, atol=1e-300):
                 out.fail('fill-ratios', '%s/%s != %r' % (case['fill'][i], case['fill'][0], case['ratios'][i - 1]))
